@@ -19,6 +19,10 @@ FAMILY = [
      [["K1", "K0"], ["N1", "N0"]]),
     (MM, ["K: [uniform_shape(4), uniform_occupancy(A.2)]"], ["K2", "K1", "K0", "M", "N"], [["K2", "K1", "K0"]]),
     (MM, ["K: [uniform_occupancy(A.6), uniform_occupancy(A.3)]"], ["K2", "K1", "K0", "M", "N"], [["K2", "K1", "K0"]]),
+    # the two occupancy levels of one rank led by DIFFERENT tensors
+    (MM, ["K: [uniform_occupancy(A.6), uniform_occupancy(B.3)]"], ["K2", "K1", "K0", "M", "N"], [["K2", "K1", "K0"]]),
+    (MM, ["K: [uniform_occupancy(B.6), uniform_occupancy(A.3)]", "M: [uniform_occupancy(A.4)]"],
+     ["K2", "K1", "K0", "M1", "M0", "N"], [["K2", "K1", "K0"], ["M1", "M0"]]),
     (({"F": "[S]", "I": "[W]", "G": "[Q, N]", "O": "[Q]"}, "O[q] = I[q + s] * F[s] * G[q, n]"),
      ["Q: [uniform_shape(10)]", "W: [follow(Q)]"], ["N", "Q1", "S", "Q0"], [["Q1", "Q0"]]),
     (({"F": "[S]", "I": "[W]", "G": "[Q, N, P]", "O": "[Q]"}, "O[q] = I[q + s] * F[s] * G[q, n, p]"),
